@@ -760,7 +760,7 @@ func (fc *FuncCtx) isIntrinsic(fn *ssa.Function) bool {
 		"sync/atomic.AddUint64", "sync/atomic.AddInt64", "sync/atomic.AddUint32", "sync/atomic.AddInt32",
 		"sync/atomic.LoadUint64", "sync/atomic.LoadInt64", "sync/atomic.LoadUint32", "sync/atomic.LoadInt32",
 		"sync/atomic.StoreUint64", "sync/atomic.StoreInt64", "sync/atomic.StoreUint32", "sync/atomic.StoreInt32",
-		"math.Ceil", "math.Floor":
+		"math.Ceil", "math.Floor", "(*sync.Once).Do":
 		return true
 	}
 	return false
@@ -811,6 +811,25 @@ func (fc *FuncCtx) intrinsic(fr *Frame, st *State, fn *ssa.Function, c *ssa.Call
 		}
 		fc.atomicAccess(fr, st, p, pos)
 		fc.storePlace(st, p, args[1])
+		return UnitV{}, true
+	case "(*sync.Once).Do":
+		key, ref, _, _ := fc.lockKey(args[0])
+		key = "ONCE!" + strings.TrimPrefix(key, "L!")
+		cur := fc.compTerm(st, key, "(Array Int Bool)")
+		done := fc.u.define("once.done", "Bool", "(select "+cur+" "+ref+")")
+		cv, ok := args[1].(ClosureV)
+		if !ok || cv.Fn == nil {
+			fc.unsupported("sync.Once.Do with an unknown function value")
+		}
+		s1 := st.clone()
+		s1.pc = fc.u.define("pc.once", "Bool", tAnd(st.pc, tNot(done)))
+		s2 := st.clone()
+		s2.pc = fc.u.define("pc.onceskip", "Bool", tAnd(st.pc, done))
+		fc.setComp(s1, key, "(Array Int Bool)", "(store "+cur+" "+ref+" true)")
+		fc.inlineCall(fr, s1, cv.Fn, fc.eng.contractFor(cv.Fn), nil, cv.Bindings, pos)
+		m := fc.mergeStates([]*State{s1, s2})
+		*st = *m
+		fc.u.Assumptions["sync.Once.Do runs its function exactly once, the first time (ghost flag per Once value)"] = true
 		return UnitV{}, true
 	case "math.Ceil":
 		x := args[0].(Scalar)
@@ -1037,17 +1056,36 @@ func (fc *FuncCtx) execSelect(fr *Frame, st *State, x *ssa.Select) Value {
 	}
 	out := []Value{idxV, Scalar{fc.u.fresh("select.recvok", "Bool"), "Bool", types.Typ[types.Bool]}}
 	cl := fc.compTerm(st, "CH!closed", "(Array Int Bool)")
+	closeOnly := map[string]bool{}
+	if fr.con != nil {
+		for _, n := range strings.Split(fr.con.Flags["closeonly"], ",") {
+			if n != "" {
+				closeOnly[n] = true
+			}
+		}
+	}
 	for k, s := range x.States {
 		ch := fc.val(fr, st, s.Chan).(Scalar)
 		taken := fmt.Sprintf("(= %s %d)", idx, k)
 		if s.Dir == types.SendOnly {
+			// the value offered on this case (call-site obligations on sends apply to select cases too)
+			fc.atCallClauses(fr, st, x, "send", "send", map[string]Value{"ch": ch, "value": fc.val(fr, st, s.Send)}, x.Pos())
 			fc.bumpEvent(st, "sends", ch.T, taken)
-			// a send case that is taken on a closed channel panics
-			_ = cl
 		} else {
 			fc.bumpEvent(st, "recvs", ch.T, taken)
 			et := s.Chan.Type().Underlying().(*types.Chan).Elem()
 			out = append(out, fc.freshValue(st, et, "select.recv"))
+			// a receive from a closed channel is always ready: if no case was taken, the channel is not closed
+			if !x.Blocking {
+				fc.u.fact(st.pc, tImp("(= "+idx+" (- 1))", tNot("(select "+cl+" "+ch.T+")")))
+			}
+			// a channel that is only ever closed (never sent on): its receive case is taken only when it is closed
+			for n := range closeOnly {
+				if chanNamed(s.Chan, n) {
+					fc.u.fact(st.pc, tImp(taken, "(select "+cl+" "+ch.T+")"))
+					fc.u.Assumptions["channel "+n+" is close-only (nothing is ever sent on it), so its receive case fires only once it is closed"] = true
+				}
+			}
 		}
 	}
 	fc.selectOp(fr, st, x, idx)
